@@ -171,7 +171,7 @@ class Bytes(Spec):
 
         def conc(ev):
             ln = n if isinstance(n, int) else ev(n).as_long()
-            ln = min(ln, 4096)
+            ln = min(ln, 1 << 20)
             bs = bytes(min(255, max(0, ev(f(z3.IntVal(i))).as_long())) for i in range(ln))
             return bytearray(bs) if mutable else bs
 
@@ -557,6 +557,8 @@ class LoopSpec:
 
     def _havoc(self, I, frame):
         from .core import SObj
+
+        I.path.notes.append("havoc")  # from here on the state is an arbitrary one, not a real execution prefix
 
         for m in self.modifies:
             if m.startswith("ghost:"):
